@@ -167,3 +167,62 @@ def model_to_structure(model, n, aps, fixed=None):
     R = [(i, j) for i in range(n) for j in range(n) if val('t_%d_%d' % (i, j))]
     L = {i: sorted(a for a in aps if val('l_%s_%d' % (a, i))) for i in range(n)}
     return R, L
+
+
+class GView:
+    """read-only view of a (guarded union of) DiGraph / Kripke object(s) in the evaluator's heap; every accessor returns
+    a guard, whatever shape (one object, several alternatives, rebuilt dicts) the executed code produced"""
+
+    def __init__(self, obj, attr='_next'):
+        self.alts = []          # (guard, MDict)
+        for (go, o) in alts_of(obj):
+            if o is None or not isinstance(o, see.MObj):
+                continue
+            d = o.attrs.get(attr)
+            for (gd, dd) in alts_of(d):
+                if isinstance(dd, MDict):
+                    self.alts.append((b_and(go, gd), dd))
+        self.defined = b_or(*[g for g, _ in self.alts])
+
+    def node(self, k):
+        return b_or(*[b_and(g, d.present.get(k, False)) for g, d in self.alts])
+
+    def member(self, k, e):
+        """e is in the set stored under key k"""
+        out = []
+        for g, d in self.alts:
+            if k in d.present:
+                out.append(b_and(g, d.present[k], fold_b(d.vals[k], lambda q: self._get(q, e))))
+        return b_or(*out)
+
+    @staticmethod
+    def _get(q, e):
+        if isinstance(q, see.MObj) and hasattr(q, 'base'):
+            q = q.base
+        if isinstance(q, MSet):
+            return q.get(e)
+        if isinstance(q, (set, frozenset, list, tuple)):
+            return e in q
+        return False
+
+    def foreign_keys(self, allowed):
+        return b_or(*[b_and(g, p) for g, d in self.alts for k, p in d.present.items() if k not in allowed])
+
+    def foreign_members(self, allowed):
+        out = []
+        for g, d in self.alts:
+            for k in d.order:
+                for (ga, q) in alts_of(d.vals[k]):
+                    if isinstance(q, MSet):
+                        out += [b_and(g, d.present[k], ga, b) for e, b in q.bits.items() if e not in allowed]
+        return b_or(*out)
+
+    def set_objects(self):
+        out = []
+        for g, d in self.alts:
+            for k in d.order:
+                out += [q for (ga, q) in alts_of(d.vals[k])]
+        return out
+
+    def dict_objects(self):
+        return [d for g, d in self.alts]
